@@ -1,5 +1,6 @@
 """C09 -- spatial filters keep exactly the particles that lie inside"""
 from .common import *
+from . import C08 as _c08
 
 TITLE = "Spatial filters keep exactly the particles that lie inside"
 EXPLANATION = (
@@ -423,8 +424,66 @@ def o97(ctx):
                         f"library's (z, y, x) block): the voxel of a particle is looked up as mask[x, y, z]; found {ps}", fn, m)
 
 
+def o99(ctx):
+    """ioutils.dimensions_load: a table with one row per tomogram (tomo_id, x, y, z) comes back as given -- the columns named in this order,
+    every row with its own tomogram number -- whether or not a list of tomograms is passed as well; one x y z triplet is repeated for
+    every listed tomogram"""
+    q = "ioutils.dimensions_load"
+    m, fn = ctx.prog.func(q)
+    ctx.touched(q)
+    for tomo_idx in (None, P("tomos")):
+        it = Interp(ctx.prog, no_inline=("ioutils.tlt_load",))
+        f = Frame({k: sym(f"in:{k}") for k in range(4)}, [0, 1, 2, 3], name="dims_in")
+        f.space = Space("dims_in", how="root")
+        r = it.run(q, [f], {} if tomo_idx is None else {"tomo_idx": tomo_idx})
+        d = r.ret
+        if not isinstance(d, Frame) or d.order is None:
+            raise Unsupported("dimensions_load(<N x 4 table>) does not return a table", fn)
+        what = "with a list of tomograms" if tomo_idx is not None else "without a list of tomograms"
+        ctx.count(1, {"N x 4 table " + what: {c: tm.show(t)[:60] for c, t in d.cols.items()}})
+        if list(d.order) != ["tomo_id", "x", "y", "z"]:
+            ctx.finding(q, "column names", f"an N x 4 table must come back with the columns tomo_id, x, y, z in this order (got {list(d.order)})", fn, m)
+            continue
+        for k, c in enumerate(d.order):
+            ctx.count(1)
+            if d.cols[c] != sym(f"in:{k}"):
+                ctx.finding(q, f"column {c}", f"dimensions_load(<N x 4 table>) {what}: column {c} must be column {k} of the table as given -- every "
+                            f"row keeps its own tomogram number and dimensions; it becomes {tm.show(d.cols[c])[:100]}", last_store(it, d, c) or fn, m)
+        if tomo_idx is None:
+            same_rows_same_order(ctx, q, d, f, "dimensions_load(<N x 4 table>) keeps the rows of the table", fn, m)
+    # one triplet for all tomograms
+    it = Interp(ctx.prog, no_inline=("ioutils.tlt_load",))
+    f = Frame({k: sym(f"in:{k}") for k in range(3)}, [0, 1, 2], name="dims_in")
+    f.space = Space("dims_in", how="root")
+    f.single_row = True
+    r = it.run(q, [f], {"tomo_idx": P("tomos")})
+    d = r.ret
+    ctx.count(1, {"1 x 3 table with a list of tomograms": {c: tm.show(t)[:80] for c, t in d.cols.items()} if isinstance(d, Frame) else repr(d)[:80]})
+    if not isinstance(d, Frame) or "tomo_id" not in d.cols:
+        raise Unsupported("dimensions_load(<1 x 3>, tomo_idx) does not return a table with a tomo_id column", fn)
+    if not tm.has_call(d.cols["tomo_id"], "cryocat.ioutils.tlt_load") or not tm.has_sym(d.cols["tomo_id"], "tomos"):
+        ctx.finding(q, "tomo_id of the repeated triplet", "one x y z triplet must be repeated for the listed tomograms, each row numbered with its tomogram "
+                    f"(got {tm.show(d.cols['tomo_id'])[:100]})", fn, m)
+    for k, c in enumerate("xyz"):
+        ctx.count(1)
+        t_ = d.cols.get(c)
+        okc = t_ is not None and tm.has_sym(t_, f"in:{k}") and not any(tm.has_sym(t_, f"in:{j}") for j in range(3) if j != k)
+        if t_ is not None and not okc and t_.op == "call" and t_.args[0] == "colof" and tm.cval(t_.args[2]) == k:
+            # column k of the triplet repeated along the rows: np.repeat(<x y z>, n, axis=0)
+            rep = t_.args[1]
+            vecs = [n for n in tm.walk(rep) if n.op == "vec" and list(n.args) == [sym("in:0"), sym("in:1"), sym("in:2")]]
+            ax = rep.args[-1] if rep.op == "call" else None
+            ax = ax.args[-1] if ax is not None and ax.op in ("kw", "call") else ax
+            okc = rep.op == "call" and rep.args[0] == "numpy.repeat" and bool(vecs) and rep.args[1] == vecs[0] and ax is not None and tm.cval(ax) == 0
+        if not okc:
+            ctx.finding(q, f"column {c} of the repeated triplet", f"the repeated {c} must be the triplet's entry {k} (got "
+                        f"{tm.show(d.cols[c])[:100] if c in d.cols else 'absent'})", fn, m)
+
+
 def _obligations():
     return [
+        Obligation("O9.9", "dimensions_load: an N x 4 table comes back as given (own tomogram number per row, columns tomo_id x y z), one triplet is repeated per listed tomogram", o99, floor=10),
+        Obligation("O9.10", "helpers the filters remove through: remove_feature keeps exactly the rows that differ (exact !=), subsets select == (shared with C08)", lambda ctx: _c08.o81(ctx), floor=10),
         Obligation("O9.8", "tlt_load(file) returns every value (sorted only on request); total_dose_load hands arrays / lists back as given", o98, floor=4),
         Obligation("O9.7", "binarize returns file masks in (x,y,z) axis order (the order the coordinates index)", o97, floor=2),
         Obligation("O9.6", "tlt_load returns list / array input as given: tomogram i stays paired with mask i", o96, floor=8),
@@ -436,4 +495,4 @@ def _obligations():
 
 
 def obligations():
-    return _obligations() + [labels_obligation("C09"), selectors_obligation("C09"), effects_obligation("C09"), plumbing_obligation("C09")]
+    return _obligations() + [labels_obligation("C09"), selectors_obligation("C09"), effects_obligation("C09"), plumbing_obligation("C09"), overrides_obligation("C09"), options_obligation("C09")]
